@@ -219,8 +219,9 @@ static void run_line (char *line) {
 
 static char **lines; static size_t nlines;
 
-/* run lines [lo,hi) in a child; returns 0 and prints the child's results if it finished, else -1 */
-static int run_chunk (size_t lo, size_t hi, const char *errfile) {
+/* run lines [lo,hi) in a child that reports after every line; returns the number of lines completed
+   (== hi - lo if the child finished) and prints the results of the completed lines */
+static size_t run_chunk (size_t lo, size_t hi, const char *errfile) {
   int pfd[2];
   pid_t pid;
   if (pipe (pfd) != 0) { perror ("pipe"); exit (3); }
@@ -228,21 +229,27 @@ static int run_chunk (size_t lo, size_t hi, const char *errfile) {
   pid = fork ();
   if (pid < 0) { perror ("fork"); exit (3); }
   if (pid == 0) {
+    int fd = open (errfile != NULL ? errfile : "/dev/null", O_WRONLY | O_CREAT | O_TRUNC, 0600);
     close (pfd[0]);
-    if (errfile != NULL) { int fd = open (errfile, O_WRONLY | O_CREAT | O_TRUNC, 0600); if (fd >= 0) { dup2 (fd, 2); close (fd); } }
-    else { int fd = open ("/dev/null", O_WRONLY); if (fd >= 0) { dup2 (fd, 2); close (fd); } }
-    for (size_t i = lo; i < hi; i++) run_line (lines[i]);
-    for (size_t off = 0; off < res_len;) { ssize_t w = write (pfd[1], res + off, res_len - off); if (w <= 0) _exit (4); off += w; }
+    if (fd >= 0) { dup2 (fd, 2); close (fd); }
+    for (size_t i = lo; i < hi; i++) {
+      res_len = 0;
+      run_line (lines[i]);
+      outf ("\x01");                       /* end-of-case marker */
+      for (size_t off = 0; off < res_len;) { ssize_t w = write (pfd[1], res + off, res_len - off); if (w <= 0) _exit (4); off += w; }
+    }
     _exit (0);
   } else {
-    char buf[65536]; bytes_t got = {0}; ssize_t r; int st;
+    char buf[65536]; bytes_t got = {0}; ssize_t r; int st; size_t done = 0, last = 0;
     close (pfd[1]);
     while ((r = read (pfd[0], buf, sizeof buf)) > 0) b_push (&got, buf, r);
     close (pfd[0]);
     waitpid (pid, &st, 0);
-    if (WIFEXITED (st) && WEXITSTATUS (st) == 0) { fwrite (got.p, 1, got.len, stdout); free (got.p); return 0; }
+    for (size_t k = 0; k < got.len; k++)
+      if (got.p[k] == 1) { fwrite (got.p + last, 1, k - last, stdout); last = k + 1; done++; }
     free (got.p);
-    return WIFSIGNALED (st) ? -WTERMSIG (st) - 1000 : -1 - WEXITSTATUS (st);
+    if (WIFEXITED (st) && WEXITSTATUS (st) == 0 && done != hi - lo) { fprintf (stderr, "chunk protocol error\n"); exit (3); }
+    return done;
   }
 }
 
@@ -261,23 +268,25 @@ int main (int argc, char **argv) {
     const char *t = getenv ("C12_ERRFILE");
     snprintf (errfile, sizeof errfile, "%s", t != NULL ? t : "c12_err.txt");
   }
-  for (size_t lo = 0; lo < nlines; lo += chunk) {
-    size_t hi = lo + chunk < nlines ? lo + chunk : nlines;
-    if (run_chunk (lo, hi, NULL) == 0) continue;
-    for (size_t i = lo; i < hi; i++) {
-      int rc = run_chunk (i, i + 1, errfile);
-      if (rc != 0 && lines[i][0] == 'M') {      /* isolate the mutation(s) that kill the decoder */
+  for (size_t lo = 0; lo < nlines;) {
+    size_t hi = lo + chunk < nlines ? lo + chunk : nlines, done = run_chunk (lo, hi, NULL), c = lo + done;
+    if (done == hi - lo) { lo = hi; continue; }
+    /* line c killed the child: run it alone, keeping the sanitizer report */
+    if (run_chunk (c, c + 1, errfile) != 1) {
+      size_t ok1 = 0;
+      if (lines[c][0] == 'M') {      /* isolate the mutation(s) that kill the decoder */
         fork_each_mut = 1; mut_errfile = errfile;
-        rc = run_chunk (i, i + 1, NULL);
+        ok1 = run_chunk (c, c + 1, NULL);
         fork_each_mut = 0;
       }
-      if (rc != 0) {
+      if (ok1 != 1) {
         char msg[400];
         summarise_err (errfile, msg, sizeof msg);
         ncrash++;
-        printf ("CRASH %ld rc=%d %s\n", strtol (lines[i] + 1, NULL, 10), rc, msg);
+        printf ("CRASH %ld rc=1 %s\n", strtol (lines[c] + 1, NULL, 10), msg);
       }
     }
+    lo = c + 1;
   }
   unlink (errfile);
   printf ("DONE %zu %ld\n", nlines, ncrash);
